@@ -6,7 +6,7 @@ open Lean Pug.Sys.Conc
 /-- does the document call a function the executor model does not carry (the module's `asset`)? -/
 partial def mentionsAsset (j : Json) : Bool :=
   match j with
-  | .obj kvs => kvs.toList.any fun (k, v) => (k == "n" && (v == .str "asset" || v == .str "debug")) || mentionsAsset v
+  | .obj kvs => kvs.toList.any fun (k, v) => (k == "n" && (v == .str "asset" || v == .str "debug" || v == .str "vpWho")) || mentionsAsset v
   | .arr xs => xs.any mentionsAsset
   | _ => false
 
